@@ -147,14 +147,15 @@ def check_buffer_primitive(chk, db, fn, roles, kind, limit_err, rules, label):
             else:
                 m = mems[0]
                 a = [repr(x) for x in m.args]
-                here = '&f:%s[f:%s]' % (roles.buffer, roles.pos)
-                n_ok = len(m.args) == 3 and symx.as_poly(m.args[2]) == need
+                here = Poly.atom('&f:%s[0]' % roles.buffer) + pos       # &buffer[pos]
+                at = [symx.as_poly(x) for x in m.args]
+                n_ok = len(m.args) == 3 and at[2] == need
                 if kind == 'reader':
-                    good = m.name == 'memcpy' and len(a) == 3 and a[1] == here and a[0] in ('p:begin', 'p:byte') and n_ok
+                    good = m.name == 'memcpy' and len(a) == 3 and at[1] == here and a[0] in ('p:begin', 'p:byte') and n_ok
                 elif name == 'Skip':
-                    good = m.name == 'memset' and len(a) == 3 and a[0] == here and a[1].startswith('p:') and n_ok
+                    good = m.name == 'memset' and len(a) == 3 and at[0] == here and a[1].startswith('p:') and n_ok
                 else:
-                    good = m.name == 'memcpy' and len(a) == 3 and a[0] == here and a[1] in ('p:begin', '&p:byte') and n_ok
+                    good = m.name == 'memcpy' and len(a) == 3 and at[0] == here and a[1] in ('p:begin', '&p:byte') and n_ok
                 if not good:
                     c_ok = False
                     c_why.append('block operation %s(%s) does not move `need` bytes between the caller\'s range and buffer[pos]' % (m.name, ', '.join(a)))
